@@ -383,6 +383,21 @@ def eqMapLoop [DecidableEq V] (s : OMD K V) (m : List (K × V)) : List K → Exc
 def eqMapping [DecidableEq V] (s : OMD K V) (m : List (K × V)) : Except Err Bool :=
   if m.length ≠ s.len then .ok false else eqMapLoop s m s.keys
 
+/-- the mapping loop of `__eq__` as it was BEFORE the fix of round 3 (`other[k]` alone, no membership test), for a
+    mapping whose `__missing__` answers `z` for every key it lacks (`collections.Counter`: `some 0`; a `defaultdict`;
+    `none` = an ordinary mapping, `other[k]` raises KeyError).  Kept to state what the fix changed. -/
+def eqMapLoopOld [DecidableEq V] (s : OMD K V) (m : List (K × V)) (z : Option V) : List K → Except Err Bool
+  | [] => .ok true
+  | k :: r => match (dget k m).orElse (fun _ => z) with
+    | none => .ok false
+    | some mv => match s.getitem k with
+      | .error .keyError => .ok false
+      | .error e => .error e
+      | .ok v => if mv ≠ v then .ok false else eqMapLoopOld s m z r
+
+def eqMappingOld [DecidableEq V] (s : OMD K V) (m : List (K × V)) (z : Option V) : Except Err Bool :=
+  if m.length ≠ s.len then .ok false else eqMapLoopOld s m z s.keys
+
 /-- `__ne__`: `not (self == other)` -/
 def neOMD [DecidableEq V] (s t : OMD K V) : Bool := !s.eqOMD t
 
